@@ -85,5 +85,8 @@ def run(ctx):
         if v["prop"] in ("C11", "C12"):
             ctx.violation("C01", "agent-history:" + v["key"], v["detail"])
     ctx.coverage["traces_validated_against_impl"] += nval
+    # verdicts of two agents (master, rsync-fed slave) along Sync.tla histories
+    import syncfam
+    syncfam.histories(ctx, 150 if ctx.tier == "thorough" else 15, props={"C01"})
     ctx.assumptions += ["pi (projection) and the independent digest recomputation in harness/go/concrete are trusted",
                         "bounded model: 2 users, 3 passwords (two key-equivalent under scrypt), 2 parameter sets"]
